@@ -133,7 +133,8 @@ struct Exec {
 
   static std::string step_line(const char* kind, const std::string& name, std::initializer_list<int> dsts,
                                std::initializer_list<int> args, const std::string& info) {
-    OS o; o << "step " << kind << " " << name << " " << dsts.size();
+    std::string nm = name; for (size_t i = 0; i < nm.size(); ++i) if (nm[i] == ' ') nm[i] = '_';
+    OS o; o << "step " << kind << " " << nm << " " << dsts.size();
     for (int d : dsts) o << " " << d;
     o << " " << args.size();
     for (int a : args) o << " " << a;
@@ -390,6 +391,8 @@ static const Relation_Symbol RELS[5] = { LESS_OR_EQUAL, EQUAL, GREATER_OR_EQUAL,
 template <class D> struct DomHist : Exec {
   static const int NP = 4;                         // domain objects: slots 0..3
   static const int S_CS = 4, S_CGS = 5, S_GS = 6;  // auxiliary systems
+  static const int S_PAR = 7;                      // a parameter object passed in two argument positions
+  void param(const LE& e) { J.line(step_line("new", "parameter", {S_PAR}, {}, "")); J.line("res" + val_str(e)); }
   Rng r;
   dimension_type n;
   std::unique_ptr<D> X[NP];
@@ -555,8 +558,8 @@ template <class D> struct DomHist : Exec {
         if (y.begin() != y.end()) x.refine_with_congruences(y.begin()->pointset().congruences()); });
       break;
     case 16:
-      if constexpr (is::poly) { op2("add_generators(y.generators())", d, x, a, y, [](D& x, const D& y) { if (!y.is_empty()) x.add_generators(y.generators()); }); break; }
-      else if constexpr (is::grid) { op2("add_grid_generators(y.grid_generators())", d, x, a, y, [](D& x, const D& y) { if (!y.is_empty()) x.add_grid_generators(y.grid_generators()); }); break; }
+      if constexpr (is::poly) { op2("add_generators(y.generators())", d, x, a, y, [](D& x, const D& y) { x.add_generators(y.generators()); }); break; }
+      else if constexpr (is::grid) { op2("add_grid_generators(y.grid_generators())", d, x, a, y, [](D& x, const D& y) { x.add_grid_generators(y.grid_generators()); }); break; }
       else if constexpr (is::pps) {
         // the Determinate of y itself: the new disjunct shares its representation with y
         op2("Powerset::add_disjunct(y's Determinate)", d, x, a, y, [sel](D& x, const D& y) {
@@ -577,7 +580,7 @@ template <class D> struct DomHist : Exec {
         if (r.chance(1, 2)) op2("add_constraint(own constraint)", d, x, a, y, [sel](D& x, const D& y) {
           const Constraint* c = kth(y.constraints(), sel); if (c) x.add_constraint(*c); });
         else op2("add_generator(own generator)", d, x, a, y, [sel](D& x, const D& y) {
-          if (y.is_empty()) return; const Generator* g = kth(y.generators(), sel); if (g && !x.is_empty()) x.add_generator(*g); });
+          const Generator* g = kth(y.generators(), sel); if (g) x.add_generator(*g); });
       } else {
         op2("refine_with_constraint(own constraint)", d, x, a, y, [sel](D& x, const D& y) {
           const Constraint_System& cs = y.constraints(); const Constraint* c = kth(cs, sel); if (c) x.refine_with_constraint(*c); });
@@ -588,14 +591,14 @@ template <class D> struct DomHist : Exec {
       op2("affine_image(v, expr of own constraint)", d, x, a, y, [sel, v](D& x, const D& y) {
         if constexpr (is::pps) { (void) sel; (void) v; (void) y; }
         else { const auto& cs = y.constraints(); const Constraint* c = kth(cs, sel);
-          if (c) { LE e(*c); x.affine_image(Variable(v), e); } } });
+          if (c) { LE e(c->expression()); x.affine_image(Variable(v), e); } } });
       break; }
     case 19: {
       Relation_Symbol rel = RELS[r.below(3)];
       op2("generalized_affine_image(lhs, rel, rhs of own constraints)", d, x, a, y, [sel, rel](D& x, const D& y) {
         if constexpr (is::pps) { (void) sel; (void) rel; (void) y; }
         else { const auto& cs = y.constraints(); const Constraint* c1 = kth(cs, sel); const Constraint* c2 = kth(cs, sel + 1);
-          if (c1 && c2) { LE l(*c1), rr(*c2); x.generalized_affine_image(l, rel, rr); } } });
+          if (c1 && c2) { LE l(c1->expression()), rr(c2->expression()); x.generalized_affine_image(l, rel, rr); } } });
       break; }
     case 20:
       if constexpr (is::pps) {
@@ -678,7 +681,7 @@ template <class D> struct DomHist : Exec {
       else if constexpr (is::grid) { make1("GGS = x.grid_generators()", S_GS, GGS, d, x, [](const D& x) { return Grid_Generator_System(x.grid_generators()); }); break; }
       /* fall through */
     case 11:
-      if constexpr (is::poly) { op2("add_generators(GS)", d, x, S_GS, GS, [](D& x, const Generator_System& s) { if (!(x.is_empty() && !s.has_points())) x.add_generators(s); }); break; }
+      if constexpr (is::poly) { op2("add_generators(GS)", d, x, S_GS, GS, [](D& x, const Generator_System& s) { x.add_generators(s); }); break; }
       else if constexpr (is::grid) { op2("add_grid_generators(GGS)", d, x, S_GS, GGS, [](D& x, const Grid_Generator_System& s) { x.add_grid_generators(s); }); break; }
       /* fall through */
     case 12:
@@ -723,13 +726,15 @@ template <class D> struct DomHist : Exec {
     case 10: {
       // one expression object in two argument positions
       Relation_Symbol rel = RELS[r.below(3)];
-      if constexpr (is::grid) op2("generalized_affine_image(e, =, e)", d, x, 90, e, [&](D& x, const LE& f) { x.generalized_affine_image(f, EQUAL, f); });
-      else op2("generalized_affine_image(e, rel, e)", d, x, 90, e, [&](D& x, const LE& f) { x.generalized_affine_image(f, rel, f); });
+      param(e);
+      if constexpr (is::grid) op3("generalized_affine_image(e, =, e)", d, x, S_PAR, e, S_PAR, e, [&](D& x, const LE& f, const LE& g) { x.generalized_affine_image(f, EQUAL, g); });
+      else op3("generalized_affine_image(e, rel, e)", d, x, S_PAR, e, S_PAR, e, [&](D& x, const LE& f, const LE& g) { x.generalized_affine_image(f, rel, g); });
       break; }
     case 11:
-      op2("bounded_affine_image(v, e, e)", d, x, 90, e, [&](D& x, const LE& f) {
+      param(e);
+      op3("bounded_affine_image(v, e, e)", d, x, S_PAR, e, S_PAR, e, [&](D& x, const LE& f, const LE& g) {
         D probe(x); if (probe.is_empty()) return;        // C02: bounded_affine_image aborts on empty receivers
-        x.bounded_affine_image(Variable(v), f, f, den); });
+        x.bounded_affine_image(Variable(v), f, g, den); });
       break;
     case 12: op1("unconstrain", d, x, [&](D& x) { x.unconstrain(Variable(v)); }); break;
     case 13: op1("add_space_dimensions_and_project", d, x, [&](D& x) { x.add_space_dimensions_and_project(1); }); break;
@@ -873,14 +878,12 @@ struct LinHist : Exec {
     case 10: op1("e -= v", d, x, [&](LE& x) { x -= Variable(v); }); break;
     case 11: op1("set_coefficient", d, x, [&](LE& x) { if (v < x.space_dimension()) x.set_coefficient(Variable(v), c); }); break;
     case 12: op1("set_inhomogeneous_term", d, x, [&](LE& x) { x.set_inhomogeneous_term(c); }); break;
-    case 13: op2("linear_combine(e2, v)", d, x, a, y, [&](LE& x, const LE& y) {
-        if (v < x.space_dimension() && v < y.space_dimension() && x.coefficient(Variable(v)) != 0 && y.coefficient(Variable(v)) != 0)
-          x.linear_combine(y, Variable(v)); }); break;
+    case 13: op2("e1 = e2; e1 /= c", d, x, a, y, [&](LE& x, const LE& y) { x = y; if (c != 0) x /= c; }); break;
     case 14: op1("set_representation", d, x, [&](LE& x) { x.set_representation(x.representation() == DENSE ? SPARSE : DENSE); }); break;
     case 15: op2("e1 = LE(e2, repr)", d, x, a, y, [&](LE& x, const LE& y) { x = LE(y, c > 0 ? SPARSE : DENSE); }); break;
-    case 16: { int s = (int)r.below(2); make1("e = LE(constraint)", d, x, 2 + s, *C[s], [](const Constraint& c) { return LE(c); }); break; }
-    case 17: { int s = (int)r.below(2); make1("e = LE(generator)", d, x, 4 + s, *G[s], [](const Generator& g) { return LE(g); }); break; }
-    default: { int s = (int)r.below(2); make1("e = LE(congruence)", d, x, 6 + s, *Q[s], [](const Congruence& g) { return LE(g); }); break; }
+    case 16: { int s = (int)r.below(2); make1("e = LE(constraint)", d, x, 2 + s, *C[s], [](const Constraint& c) { return LE(c.expression()); }); break; }
+    case 17: { int s = (int)r.below(2); make1("e = LE(generator)", d, x, 4 + s, *G[s], [](const Generator& g) { return LE(g.expression()); }); break; }
+    default: { int s = (int)r.below(2); make1("e = LE(congruence)", d, x, 6 + s, *Q[s], [](const Congruence& g) { return LE(g.expression()); }); break; }
     }
   }
 
@@ -955,7 +958,7 @@ struct LinHist : Exec {
       return; }
     if (k < 33) { unsigned t = r.below(5);
       switch (t) { case 0: { int d = (int)r.below(2); dimension_type m = rdim(); op1("set_space_dimension", d, *E[d], [&](LE& x) { x.set_space_dimension(m); }); break; }
-        case 1: dim_ops(2, C, true); break; case 2: dim_ops(4, G, true); break; case 3: dim_ops(6, Q, true); break; default: dim_ops(8, GG, true); break; }
+        case 1: dim_ops(2, C, true); break; case 2: dim_ops(4, G, false); break; case 3: dim_ops(6, Q, true); break; default: dim_ops(8, GG, false); break; }
       return; }
     if (k < 55) { expr_step(); return; }
     if (k < 75) { make_step(); return; }
